@@ -282,6 +282,13 @@ func (g *gen) call(flavor string, maxLeaves int) Event {
 		f = g.pick([]string{"sat", "sat", "sat", "invalid", "lists", "extract", "extract"})
 	}
 	switch f {
+	case "single":
+		// one term against one allowed entry, both drawn from the same few families
+		t1, t2 := g.term(pool, true), g.term(pool, true)
+		if g.rng.Intn(6) == 0 {
+			t2 = t1
+		}
+		return eventOf(obsSatisfies(t1, []string{t2}), t1, []string{t2})
 	case "sat":
 		a := g.allowedList(pool, 1+g.rng.Intn(5))
 		if g.rng.Intn(12) == 0 {
